@@ -2,7 +2,7 @@
    [loads limit (print_compact v) = LValue v] for every well-formed v nested at most [limit] deep.
    Numbers, strings, then the structure. *)
 From Coq Require Import List ZArith NArith Bool String Ascii Lia.
-From OV.Model Require Import Json Digits DigitsProofs JsonText JsonParse JsonParseProofs.
+From OV.Model Require Import Json Digits DigitsProofs JsonText JsonParse JsonParseProofs Utf8Proofs StringRoundTrip.
 Import ListNotations.
 Local Open Scope string_scope.
 
@@ -269,9 +269,24 @@ Proof.
   rewrite normalise_mul10k by exact P. reflexivity.
 Qed.
 
+Lemma dec_conv_mul10k fm neg k M E : 0 < M ->
+  dec_conv fm neg (M * 10 ^ Z.of_nat k) (E - Z.of_nat k) = dec_conv fm neg M E.
+Proof.
+  intros P. destruct fm; cbn [dec_conv]; [apply float_of_dec_mul10k, P|].
+  unfold decimal_of_dec. rewrite normalise_mul10k by exact P. reflexivity.
+Qed.
+
+Section Mode.
+Variable fm : fkind.
+Local Notation pnumber := (JsonParse.pnumber fm).
+Local Notation pvalue := (JsonParse.pvalue fm).
+Local Notation pelements := (JsonParse.pelements fm).
+Local Notation pmembers := (JsonParse.pmembers fm).
+Local Notation num_of_lit := (JsonParse.num_of_lit fm).
+
 (* ---- integers ---- *)
 Lemma pnumber_of s l r n : scan_number s = Some (l, r) -> num_of_lit l = Some n -> pnumber s = POk (JNum n) r.
-Proof. intros H1 H2. unfold pnumber. rewrite H1, H2. reflexivity. Qed.
+Proof. intros H1 H2. unfold JsonParse.pnumber. rewrite H1, H2. reflexivity. Qed.
 
 Definition int_ok (z : Z) : Prop := (List.length (digits (Z.to_N (Z.abs z))) <= int_max_str_digits)%nat.
 
@@ -281,7 +296,7 @@ Lemma pnumber_int_gen (neg : bool) n rest :
   = POk (JNum (NInt (if neg then - Z.of_N n else Z.of_N n))) rest.
 Proof.
   intros L NF. eapply pnumber_of; [apply scan_number_int; [apply int_part_digits|exact NF]|].
-  unfold num_of_lit. cbn [nl_frac nl_exp nl_int nl_neg].
+  unfold JsonParse.num_of_lit. cbn [nl_frac nl_exp nl_int nl_neg].
   replace (Nat.ltb int_max_str_digits (List.length (digits n))) with false
     by (symmetry; apply Nat.ltb_ge; exact L).
   rewrite dval_digits. reflexivity.
@@ -300,6 +315,26 @@ Qed.
 Definition float_ok (m e : Z) : Prop :=
   if m =? 0 then e = 0
   else m mod 10 <> 0 /\ float_of_dec (m <? 0) (Z.abs m) e = NDec m e FFloat.
+
+(* what the literal of m * 10^e must satisfy to be read back as NDec m e fm: in float mode [float_ok];
+   in Decimal mode only that the digits are written without trailing zeros *)
+Definition lit_ok (m e : Z) : Prop :=
+  if m =? 0 then e = 0
+  else m mod 10 <> 0 /\ (fm = FFloat -> float_of_dec (m <? 0) (Z.abs m) e = NDec m e FFloat).
+
+Lemma dec_conv_canon m e : m <> 0 -> m mod 10 <> 0 ->
+  (fm = FFloat -> float_of_dec (m <? 0) (Z.abs m) e = NDec m e FFloat) ->
+  dec_conv fm (m <? 0) (Z.abs m) e = NDec m e fm.
+Proof.
+  intros NZ M10 CAN. destruct fm; cbn [dec_conv]; [exact (CAN eq_refl)|].
+  unfold decimal_of_dec. rewrite normalise_id.
+  - destruct (Z.ltb_spec m 0); f_equal; lia.
+  - lia.
+  - destruct (Z.ltb_spec m 0) as [L|L].
+    + rewrite Z.abs_neq by lia. intros H. apply M10.
+      rewrite <- (Z.opp_involutive m). rewrite Z.mod_opp_l_z by (lia || exact H). reflexivity.
+    + rewrite Z.abs_eq by lia. exact M10.
+Qed.
 
 Lemma Forall_repeat0 k : Forall lt10 (repeat 0%N k).
 Proof. induction k; simpl; constructor; [reflexivity|assumption]. Qed.
@@ -327,7 +362,7 @@ Section FloatShapes.
   (* 0.000ddd *)
   Lemma shape_small k :
     pnumber (sgn ++ "0." ++ dstr (repeat 0%N k ++ ds) ++ rest)%string
-    = POk (JNum (float_of_dec neg (Z.of_N a) (- Z.of_nat (k + List.length ds)))) rest.
+    = POk (JNum (dec_conv fm neg (Z.of_N a) (- Z.of_nat (k + List.length ds)))) rest.
   Proof.
     destruct ds_facts as [d0 [ds' [E [D [NZ F]]]]].
     destruct (nonempty_cons (repeat 0%N k ++ ds)) as [fd [fds EL]].
@@ -337,7 +372,7 @@ Section FloatShapes.
     eapply pnumber_of.
     - rewrite EL. change ("0." ++ dstr (fd :: fds) ++ rest)%string with (dstr [0%N] ++ String "." (dstr (fd :: fds) ++ rest))%string.
       apply scan_number_frac; [left; reflexivity|exact FL|exact NF].
-    - unfold num_of_lit. cbn [nl_frac nl_exp nl_int nl_neg]. rewrite <- EL.
+    - unfold JsonParse.num_of_lit. cbn [nl_frac nl_exp nl_int nl_neg]. rewrite <- EL.
       change ([0%N] ++ repeat 0%N k ++ ds)%list with (repeat 0%N (S k) ++ ds)%list.
       rewrite dval_zeros_l. unfold ds at 1. rewrite dval_digits.
       rewrite app_length, repeat_length. solve [repeat (f_equal; try lia)].
@@ -346,7 +381,7 @@ Section FloatShapes.
   (* ddd000.0 *)
   Lemma shape_big k :
     pnumber (sgn ++ dstr (ds ++ repeat 0%N k) ++ ".0" ++ rest)%string
-    = POk (JNum (float_of_dec neg (Z.of_N a) (Z.of_nat k))) rest.
+    = POk (JNum (dec_conv fm neg (Z.of_N a) (Z.of_nat k))) rest.
   Proof.
     destruct ds_facts as [d0 [ds' [E [D [NZ F]]]]].
     eapply pnumber_of.
@@ -355,12 +390,12 @@ Section FloatShapes.
       right. exists d0, (ds' ++ repeat 0%N k)%list. rewrite E.
       split; [reflexivity|split; [exact D|split; [exact NZ|]]].
       apply Forall_app; split; [exact F|apply Forall_repeat0].
-    - unfold num_of_lit. cbn [nl_frac nl_exp nl_int nl_neg].
+    - unfold JsonParse.num_of_lit. cbn [nl_frac nl_exp nl_int nl_neg].
       rewrite dval_app, dval_zeros_r, dval_single. unfold ds at 1. rewrite dval_digits.
       cbn [List.length]. rewrite N.add_0_r.
       replace (Z.of_N (a * 10 ^ N.of_nat k * 10 ^ N.of_nat 1)) with (Z.of_N a * 10 ^ Z.of_nat (S k)).
       + replace (0 - Z.of_nat 1) with (Z.of_nat k - Z.of_nat (S k)) by lia.
-        rewrite float_of_dec_mul10k by lia. reflexivity.
+        rewrite dec_conv_mul10k by lia. reflexivity.
       + rewrite !N2Z.inj_mul, !N2Z.inj_pow, !nat_N_Z. rewrite Nat2Z.inj_succ, Z.pow_succ_r by lia.
         change (Z.of_N 10) with 10. change (Z.of_nat 1) with 1. lia.
   Qed.
@@ -368,7 +403,7 @@ Section FloatShapes.
   (* dd.ddd *)
   Lemma shape_mid p : (0 < p < List.length ds)%nat ->
     pnumber (sgn ++ dstr (firstn p ds) ++ "." ++ dstr (skipn p ds) ++ rest)%string
-    = POk (JNum (float_of_dec neg (Z.of_N a) (- Z.of_nat (List.length ds - p)))) rest.
+    = POk (JNum (dec_conv fm neg (Z.of_N a) (- Z.of_nat (List.length ds - p)))) rest.
   Proof.
     intros P. destruct ds_facts as [d0 [ds' [E [D [NZ F]]]]].
     assert (FA : Forall lt10 ds) by (rewrite E; constructor; assumption).
@@ -381,7 +416,7 @@ Section FloatShapes.
       right. rewrite E. destruct p as [|p]; [lia|]. cbn [firstn]. exists d0, (firstn p ds').
       split; [reflexivity|split; [exact D|split; [exact NZ|]]].
       apply (Forall_firstn_skipn lt10 p ds' F).
-    - unfold num_of_lit. cbn [nl_frac nl_exp nl_int nl_neg]. rewrite <- EL.
+    - unfold JsonParse.num_of_lit. cbn [nl_frac nl_exp nl_int nl_neg]. rewrite <- EL.
       rewrite firstn_skipn. unfold ds at 1. rewrite dval_digits. rewrite skipn_length.
       solve [repeat (f_equal; try lia)].
   Qed.
@@ -413,7 +448,7 @@ Section FloatExp.
     pnumber (sgn ++ dstr (firstn 1 ds) ++ (match skipn 1 ds with [] => "" | tl => "." ++ dstr tl end) ++
              "e" ++ (if (ex <? 0)%Z then "-" else "+") ++
              dstr (match digits (Z.to_N (Z.abs ex)) with [d] => [0%N; d] | _ => digits (Z.to_N (Z.abs ex)) end) ++ rest)%string
-    = POk (JNum (float_of_dec neg (Z.of_N a) (ex - Z.of_nat (List.length ds - 1)))) rest.
+    = POk (JNum (dec_conv fm neg (Z.of_N a) (ex - Z.of_nat (List.length ds - 1)))) rest.
   Proof.
     destruct (ds_facts a a_pos) as [d0 [ds' [E [D [NZ F]]]]]. fold ds in E.
     destruct (exp_digits_facts (Z.to_N (Z.abs ex))) as [XF [[xd [xds XE]] XV]].
@@ -428,14 +463,14 @@ Section FloatExp.
       + change ("" ++ String "e" (String (if (ex <? 0)%Z then "-" else "+")%char (dstr (xd :: xds) ++ rest)))%string
           with (String "e" (String (if (ex <? 0)%Z then "-" else "+")%char (dstr (xd :: xds) ++ rest))).
         apply scan_number_exp; [exact IP|rewrite <- XE; exact XF|exact NF].
-      + unfold num_of_lit. cbn [nl_frac nl_exp nl_int nl_neg]. rewrite <- XE, XZ.
+      + unfold JsonParse.num_of_lit. cbn [nl_frac nl_exp nl_int nl_neg]. rewrite <- XE, XZ.
         rewrite app_nil_r. replace (dval [d0]) with a by (rewrite <- E; unfold ds; symmetry; apply dval_digits).
         cbn [List.length]. solve [repeat (f_equal; try lia)].
     - eapply pnumber_of.
       + change (("." ++ dstr (f1 :: fs)) ++ String "e" (String (if (ex <? 0)%Z then "-" else "+")%char (dstr (xd :: xds) ++ rest)))%string
           with (String "." (dstr (f1 :: fs) ++ String "e" (String (if (ex <? 0)%Z then "-" else "+")%char (dstr (xd :: xds) ++ rest)))).
         apply scan_number_frac_exp; [exact IP|exact F|rewrite <- XE; exact XF|exact NF].
-      + unfold num_of_lit. cbn [nl_frac nl_exp nl_int nl_neg]. rewrite <- XE, XZ.
+      + unfold JsonParse.num_of_lit. cbn [nl_frac nl_exp nl_int nl_neg]. rewrite <- XE, XZ.
         change ([d0] ++ f1 :: fs)%list with (d0 :: f1 :: fs).
         replace (dval (d0 :: f1 :: fs)) with a by (rewrite <- E; unfold ds; symmetry; apply dval_digits).
         cbn [List.length]. solve [repeat (f_equal; try lia)].
@@ -443,15 +478,15 @@ Section FloatExp.
 End FloatExp.
 
 Theorem pnumber_float m e rest :
-  float_ok m e -> num_follow rest = true ->
-  pnumber (float_text m e ++ rest)%string = POk (JNum (NDec m e FFloat)) rest.
+  lit_ok m e -> num_follow rest = true ->
+  pnumber (float_text m e ++ rest)%string = POk (JNum (NDec m e fm)) rest.
 Proof.
-  intros OK NF. unfold float_ok in OK. unfold float_text. cbv zeta.
+  intros OK NF. unfold lit_ok in OK. unfold float_text. cbv zeta.
   destruct (Z.eqb_spec m 0) as [->|NZ].
   - subst e. change ("0.0" ++ rest)%string with ("" ++ dstr [0%N] ++ String "." (dstr [0%N] ++ rest))%string.
     eapply pnumber_of; [apply (scan_number_frac false); [left; reflexivity|constructor; [reflexivity|constructor]|exact NF]|].
-    reflexivity.
-  - destruct OK as [M10 CAN].
+    destruct fm; reflexivity.
+  - destruct OK as [M10 CAN0]. pose proof (dec_conv_canon m e NZ M10 CAN0) as CAN.
     set (a := Z.to_N (Z.abs m)). assert (AP : (0 < a)%N) by (unfold a; lia).
     assert (AZ : Z.of_N a = Z.abs m) by (unfold a; rewrite Z2N.id; lia).
     set (ds := digits a). set (n := Z.of_nat (List.length ds)).
@@ -477,12 +512,11 @@ Qed.
 (* ------------------------------------------------------------------ values *)
 Local Close Scope Z_scope.
 Local Open Scope string_scope.
-From OV.Model Require Import Utf8Proofs StringRoundTrip.
 
 Definition num_wf (n : num) : Prop :=
   match n with
   | NInt z => int_ok z
-  | NDec m e k => k = FFloat /\ float_ok m e
+  | NDec m e k => k = FFloat /\ lit_ok m e
   | NNaN | NInf _ => True
   end.
 
@@ -505,6 +539,16 @@ Fixpoint depth (v : json) : nat :=
   | JObj l => S ((fix go (l : list (string * json)) : nat :=
                     match l with [] => 0 | kx :: r => Nat.max (depth (snd kx)) (go r) end) l)
   | _ => 0
+  end.
+
+(* what is read back: in Decimal mode every float comes back as the Decimal with the same digits *)
+Definition numback (n : num) : num := match n with NDec m e _ => NDec m e fm | _ => n end.
+Fixpoint jback (v : json) : json :=
+  match v with
+  | JNum n => JNum (numback n)
+  | JArr l => JArr (map jback l)
+  | JObj l => JObj (map (fun kv => (fst kv, jback (snd kv))) l)
+  | _ => v
   end.
 
 (* what follows a value inside a document *)
@@ -551,7 +595,7 @@ Proof. apply N.eqb_neq. Qed.
 Lemma pvalue_numeric f d s : numeric_start s = true -> pvalue (S f) d s = pnumber s.
 Proof.
   destruct s as [|c r]; [discriminate|]. unfold numeric_start. intros H.
-  apply orb_true_iff in H. cbn [pvalue]. cbv zeta. destruct H as [H|H].
+  apply orb_true_iff in H. rewrite pvalue_S. cbv zeta. destruct H as [H|H].
   - apply is_digit_range in H.
     rewrite !neqb by lia. cbn [andb]. reflexivity.
   - apply andb_true_iff in H. destruct H as [H1 H2]. apply N.eqb_eq in H1. rewrite H1.
@@ -572,7 +616,7 @@ Qed.
 
 Lemma pnumber_numeric s v r : pnumber s = POk v r -> numeric_start s = true.
 Proof.
-  unfold pnumber. destruct (scan_number s) as [[l r0]|] eqn:E; [|discriminate]. intros _.
+  unfold JsonParse.pnumber. destruct (scan_number s) as [[l r0]|] eqn:E; [|discriminate]. intros _.
   unfold scan_number in E. destruct s as [|c s']; [discriminate|].
   unfold scan_sign in E. unfold numeric_start.
   destruct (N.eqb (N_of_ascii c) 45) eqn:C.
@@ -608,7 +652,7 @@ Notation slen := String.length.
 
 Definition RT (v : json) : Prop :=
   wf v -> forall f d rest, follow rest = true -> depth v <= d -> 2 * slen (print_compact v) + 1 <= f ->
-  pvalue f d (print_compact v ++ rest) = POk v rest.
+  pvalue f d (print_compact v ++ rest) = POk (jback v) rest.
 
 Lemma head_ok_print v rest : wf v -> follow rest = true -> head_ok (print_compact v ++ rest).
 Proof.
@@ -684,7 +728,7 @@ Proof.
   - rewrite join_cons2, !sapp_assoc. apply head_ok_print; [assumption|reflexivity].
 Qed.
 
-Lemma pelements_S f d s acc :
+Lemma pelements_S2 f d s acc :
   pelements (S f) d s acc =
   match pvalue f d s with
   | POk v r =>
@@ -702,12 +746,12 @@ Proof. reflexivity. Qed.
 Lemma pelements_join l : l <> [] -> Forall RT l -> Forall wf l ->
   forall acc f d rest, Forall (fun x => depth x <= d) l ->
   2 * slen (join "," (map print_compact l)) + 2 <= f ->
-  pelements f d (join "," (map print_compact l) ++ String "]" rest) acc = POk (JArr (List.rev acc ++ l)) rest.
+  pelements f d (join "," (map print_compact l) ++ String "]" rest) acc = POk (JArr (List.rev acc ++ map jback l)) rest.
 Proof.
   induction l as [|x xs IH]; [congruence|]. intros _ FR FW acc f d rest FD L.
   inversion FR as [|? ? Rx FRs]; subst. inversion FW as [|? ? Wx FWs]; subst.
   inversion FD as [|? ? Dx FDs]; subst.
-  destruct f as [|f]; [lia|]. rewrite pelements_S.
+  destruct f as [|f]; [lia|]. rewrite pelements_S2.
   destruct xs as [|y ys].
   - cbn [map join] in L |- *. rewrite (Rx Wx f d (String "]" rest)) by (try reflexivity; try assumption; lia).
     cbn. reflexivity.
@@ -718,13 +762,13 @@ Proof.
     cbn [append]. change (N.eqb (N_of_ascii ",") 44) with true. cbv iota.
     change (print_compact y :: map print_compact ys) with (map print_compact (y :: ys)).
     rewrite head_ok_skip by (apply head_ok_join; [discriminate|assumption]).
-    rewrite (IH ltac:(discriminate) FRs FWs (x :: acc) f d rest FDs) by (cbn [map]; change (slen ",") with 1 in L; lia).
+    rewrite (IH ltac:(discriminate) FRs FWs (jback x :: acc) f d rest FDs) by (cbn [map]; change (slen ",") with 1 in L; lia).
     cbn [List.rev]. rewrite <- app_assoc. reflexivity.
 Qed.
 
 Lemma pvalue_arr f d s : head_ok s -> pvalue (S f) (S d) (String "[" s) = pelements f d s [].
 Proof.
-  intros H. cbn [pvalue]. cbv zeta.
+  intros H. rewrite pvalue_S. cbv zeta.
   change (N.eqb (N_of_ascii "[") 34) with false. change (N.eqb (N_of_ascii "[") 123) with false.
   change (N.eqb (N_of_ascii "[") 91) with true. cbv iota.
   rewrite head_ok_skip by exact H. destruct s as [|c r]; [contradiction|].
@@ -777,7 +821,7 @@ Proof.
   rewrite IH; [reflexivity|]. intros H. apply NI. right. exact H.
 Qed.
 
-Lemma pmembers_S f d q r acc :
+Lemma pmembers_S2 f d q r acc :
   pmembers (S f) d (String q r) acc =
   if N.eqb (N_of_ascii q) 34 then
     match pstring r with
@@ -825,13 +869,13 @@ Lemma pmembers_one f d kv rest1 acc :
   pmembers (S f) d (member kv ++ rest1) acc =
   match rest1 with
   | String c' r4 =>
-      if N.eqb (N_of_ascii c') 44 then pmembers f d (skip_ws r4) (dict_set (fst kv) (snd kv) acc)
-      else if N.eqb (N_of_ascii c') 125 then POk (JObj (dict_set (fst kv) (snd kv) acc)) r4
+      if N.eqb (N_of_ascii c') 44 then pmembers f d (skip_ws r4) (dict_set (fst kv) (jback (snd kv)) acc)
+      else if N.eqb (N_of_ascii c') 125 then POk (JObj (dict_set (fst kv) (jback (snd kv)) acc)) r4
       else PErr
   | EmptyString => PErr
   end.
 Proof.
-  intros R [WK WV] F D L. rewrite member_app, pmembers_S.
+  intros R [WK WV] F D L. rewrite member_app, pmembers_S2.
   change (N.eqb (N_of_ascii """") 34) with true. cbv iota.
   rewrite pstring_str_text by exact WK.
   change (skip_ws (String ":" (print_compact (snd kv) ++ rest1))) with (String ":" (print_compact (snd kv) ++ rest1)).
@@ -843,7 +887,8 @@ Qed.
 Lemma pmembers_join l : l <> [] -> Forall (fun kv => RT (snd kv)) l -> Forall wf_member l ->
   forall acc f d rest, NoDup (map fst (acc ++ l)) -> Forall (fun kv => depth (snd kv) <= d) l ->
   2 * slen (join "," (map member l)) + 2 <= f ->
-  pmembers f d (join "," (map member l) ++ String "}" rest) acc = POk (JObj (acc ++ l)) rest.
+  pmembers f d (join "," (map member l) ++ String "}" rest) acc
+  = POk (JObj (acc ++ map (fun kv => (fst kv, jback (snd kv))) l)) rest.
 Proof.
   induction l as [|x xs IH]; [congruence|]. intros _ FR FW acc f d rest ND FD L.
   inversion FR as [|? ? Rx FRs]; subst. inversion FW as [|? ? Wx FWs]; subst.
@@ -857,7 +902,7 @@ Proof.
   destruct xs as [|y ys].
   - cbn [map join] in L |- *. rewrite pmembers_one; try assumption; try reflexivity; [|lia].
     change (N.eqb (N_of_ascii "}") 44) with false. change (N.eqb (N_of_ascii "}") 125) with true. cbv iota.
-    rewrite dict_set_fresh by exact FRESH. destruct x; reflexivity.
+    rewrite dict_set_fresh by exact FRESH. reflexivity.
   - cbn [map] in L |- *. rewrite join_cons2 in L |- *. rewrite !sapp_length in L. rewrite !sapp_assoc.
     change ("," ++ join "," (member y :: map member ys) ++ String "}" rest)
       with (String "," (join "," (member y :: map member ys) ++ String "}" rest)).
@@ -866,16 +911,16 @@ Proof.
     rewrite head_ok_skip by (apply (head_ok_members (y :: ys)); discriminate).
     rewrite dict_set_fresh by exact FRESH.
     change (member y :: map member ys) with (map member (y :: ys)).
-    rewrite (IH ltac:(discriminate) FRs FWs (acc ++ [(fst x, snd x)])%list f d rest).
-    + rewrite <- app_assoc. destruct x; reflexivity.
-    + rewrite <- app_assoc. destruct x; exact ND.
+    rewrite (IH ltac:(discriminate) FRs FWs (acc ++ [(fst x, jback (snd x))])%list f d rest).
+    + rewrite <- app_assoc. reflexivity.
+    + rewrite !map_app in *. cbn [map fst] in *. rewrite <- app_assoc. exact ND.
     + exact FDs.
     + cbn [map]. change (slen ",") with 1 in L. lia.
 Qed.
 
 Lemma pvalue_obj f d s : head_ok s -> pvalue (S f) (S d) (String "{" s) = pmembers f d s [].
 Proof.
-  intros H. cbn [pvalue]. cbv zeta.
+  intros H. rewrite pvalue_S. cbv zeta.
   change (N.eqb (N_of_ascii "{") 34) with false. change (N.eqb (N_of_ascii "{") 123) with true. cbv iota.
   rewrite head_ok_skip by exact H. destruct s as [|c r]; [contradiction|].
   destruct H as [_ [_ [H _]]]. rewrite H. reflexivity.
@@ -907,9 +952,9 @@ Proof.
   - apply RT_obj. assumption.
 Qed.
 
-Theorem loads_print limit v : wf v -> depth v <= limit -> loads limit (print_compact v) = LValue v.
+Theorem loads_mode_print limit v : wf v -> depth v <= limit -> loads_mode fm limit (print_compact v) = LValue (jback v).
 Proof.
-  intros W D. unfold loads.
+  intros W D. unfold loads_mode.
   pose proof (head_ok_print v "" W eq_refl) as H. rewrite sapp_nil_r in H.
   assert (B : prefix_rest bom (print_compact v) = None).
   { destruct (print_compact v) as [|c r]; [contradiction|]. destruct H as [_ [_ [_ H]]].
@@ -919,4 +964,26 @@ Proof.
   rewrite <- (sapp_nil_r (print_compact v)) at 2.
   rewrite (print_parse v W (enough (print_compact v)) limit "" eq_refl D) by (unfold enough; lia).
   reflexivity.
+Qed.
+End Mode.
+
+Local Close Scope Z_scope.
+
+(* ---- the two modes ---- *)
+Lemma jback_float v : wf FFloat v -> jback FFloat v = v.
+Proof.
+  induction v using json_ind'; intros W; try reflexivity.
+  - destruct n as [z | m e k | | ng]; try reflexivity. destruct W as [-> _]. reflexivity.
+  - apply wf_arr in W. cbn [jback]. f_equal.
+    induction l as [|x r IHl]; [reflexivity|]. inversion H; subst. inversion W; subst.
+    cbn [map]. f_equal; auto.
+  - apply wf_obj in W. destruct W as [_ W]. cbn [jback]. f_equal.
+    induction l as [|x r IHl]; [reflexivity|]. inversion H; subst. inversion W as [|? ? [_ Wx] Wr]; subst.
+    cbn [map]. f_equal; [destruct x; cbn [fst snd] in *; f_equal; auto|auto].
+Qed.
+
+(* json.loads(json.dumps(v, separators=(",", ":"))) == v *)
+Theorem loads_print limit v : wf FFloat v -> depth v <= limit -> loads limit (print_compact v) = LValue v.
+Proof.
+  intros W D. unfold loads. rewrite (loads_mode_print FFloat limit v W D), jback_float by exact W. reflexivity.
 Qed.
